@@ -124,13 +124,13 @@ pub fn rule(prop: &str) -> &'static str {
         "C02" => "case = (generated acyclic project with stale files planted at every generated path, input selection, mode, K, seeded schedule); 4 schedules per project. Non-trivial = the required closure has at least one dependency edge and the run returned Ok; distinct = distinct hash of (project bytes, config, action list).",
         "C03" => "case = (generated digraph project incl. cyclic ones, input list with duplicates/aliases, K, seeded schedule). Non-trivial = at least 2 pool tasks for source files and at least one asserted marker; distinct = distinct hash of (project bytes, config, action list).",
         "C05" => "case = (generated digraph project with self-loops / 2-cycles / longer cycles / bystanders, input selection, K, seeded schedule). Non-trivial = the required closure contains a file that can reach a cycle; distinct = distinct hash of (project bytes, config, action list).",
-        "C04" => "case = one cell of the grid {19 fault kinds} x {leaf, middle, root, sibling, outside the closure} x {modes in which the fault is meaningful}, instantiated on a seeded DAG project and run under a seeded schedule (2 schedules per instance); every 8th case is repeated through the real txtpp binary. Every case is non-trivial (carries a fault); distinct = distinct (project, fault, action lists).",
+        "C04" => "case = one cell of the grid {19 fault kinds} x {leaf, middle, root, sibling, outside the closure} x {modes in which the fault is meaningful}, instantiated on a seeded DAG project and run under a seeded schedule (2 schedules per instance); every 8th case is repeated through the real txtpp binary. Every 40th case is a syscall-level case: the k-th openat / read / write / unlink / rename of the real binary (one worker thread, modes build / --needed / verify on fresh and on tampered outputs / clean) fails with an errno (EIO, ENOSPC, EMFILE, EACCES, EINTR, EDQUOT, EBUSY, EXDEV), every position of a recorded fault-free run being a fault point (at most 18 per case, stratified over the calls); exit status 0 is only accepted with complete and correct products. Every case is non-trivial (carries a fault); distinct = distinct (project, fault, action lists).",
         "C11" => "case = (generated tree of depth <= 3 with the three source-name shapes, dotted stems, look-alikes and a directory with a txtpp-like name; input list of directories / files by either name / ./ and ../ forms / absolute paths / duplicates / missing targets; recursive flag; base directory equal to or different from the process cwd; build from an output-free tree or clean of a fully built tree; seeded schedule over scan and preprocess tasks). Non-trivial = at least two sources expected to be processed; distinct = distinct (tree, config, action list).",
         "C17" => "case = swarm draw of (1-3 sources at depth 0-3 below the base directory; process cwd = base / ancestor / unrelated; base given absolute or relative; shell default / bash -c / `printf %s\\n`; entry point library under the controller or the real binary; variant env (pwd, TXTPP_FILE), argv (random single/multi-line commands shown by the configured shell), status (exit codes, signals), cli-guard (TXTPP_FILE preset)). Every case is non-trivial; distinct = distinct (project, config, action list).",
         "C18" => "case = generated project (cyclic graphs included) whose sources, include targets and pre-existing generated files are mutated at token level (directive fragments, prefixes, Unicode blanks, tag names, path fragments) and byte level (invalid UTF-8, NUL, lone CR, deleted newlines, 256 KiB lines, empty files), run in one or two modes with num_threads in 0..16, recursion on/off, shell in {echo, false, non-existent} under a seeded schedule. Non-trivial = at least two pool tasks; distinct = distinct (project bytes, config, action list).",
         "C06" => "case = history (build; verify; one disturbance: single-byte tamper / insert / delete / append / truncate / remove of an output in or outside the closure, trailing-newline flag flip, or source edit; verify), every invocation under its own seeded schedule. Non-trivial = a verify that must fail; distinct = distinct (project, history, action lists).",
         "C07" => "case = history (optional build; optional removal of generated files; clean; clean again) on projects with and without directive errors, every invocation under a seeded schedule, whole-tree snapshots before/after. Every clean run is non-trivial; distinct = distinct (project, history, action lists, op index).",
-        "C08" => "case = history ending in a build whose result is compared with the same build (same schedule seed) from a pristine tree; pre-states: every generated path independently absent/stale/empty/prefix/random (valid and invalid UTF-8); build-build; needed-build; crash image at a seeded scheduler step with files of the interrupted action torn (old/empty/prefix/full), optionally a needed-build on the image. distinct = distinct (project, history, action lists).",
+        "C08" => "case = history ending in a build whose result is compared with the same build (same schedule seed) from a pristine tree; pre-states: every generated path independently absent/stale/empty/prefix/random (valid and invalid UTF-8); build-build; needed-build; crash image at a seeded scheduler step with files of the interrupted action torn (old/empty/prefix/full), optionally a needed-build on the image; histories that first build, interrupt or --needed-build an earlier version of the sources (edited text, or a directive that fails and is then repaired); an eighth of the projects fail (only verdicts are compared then). Every 40th case is a syscall-level case: the real binary (one worker thread) is killed on entry to the k-th openat / write / rename / unlink of a recorded build or --needed run (strace), from a pristine, built or earlier-version tree, and a plain build (optionally a --needed build first) must then give what the build from a pristine tree gives. distinct = distinct (project, history, action lists).",
         "C09" => "case = history (build; 0-3 edits/tamperings/deletions; optional verify; sentinel mtimes; checkpoint) then twin runs build and --needed from the identical pre-state under the same schedule seed. Non-trivial = at least one generated file kept untouched and at least one brought up to date in the same case.",
         "C10" => "case = history of 1-4 invocations in modes build/needed/verify/clean on projects with decoy files and (one third) an erroneous source, whole-tree snapshot diff (bytes, inode, mtime) around every invocation. Non-trivial = an invocation that changed at least one path.",
         _ => "",
@@ -189,35 +189,38 @@ pub fn expected_probes(prop: &str) -> &'static [&'static str] {
             "c05.bystanders_checked",
             "c05.runs_without_cycle",
         ],
-        "C04" => &["fault.fired.F1-tag-while-listening", "fault.fired.F2-command-fails-after-deps", "fault.fired.F2-command-killed-by-signal", "fault.fired.F3-include-invalid-utf8", "fault.fired.F4-source-invalid-utf8", "fault.fired.F5a-output-is-directory", "fault.fired.F5b-output-dangling-symlink", "fault.fired.F6-output-dev-full", "probe.F6_enospc_surfaced", "fault.fired.F7a-temp-parent-missing", "fault.fired.F7b-temp-target-is-directory", "fault.fired.F7c-temp-target-unwritable", "fault.fired.F9-tampered-output", "fault.fired.F8-fsize-limit", "fault.F8_limit_not_reached", "c04.cli_runs", "c04.ok_runs_checked_against_reference", "probe.error_with_tasks_in_flight_drop_drains"],
+        "C04" => &["fault.fired.F1-tag-while-listening", "fault.fired.F2-command-fails-after-deps", "fault.fired.F2-command-killed-by-signal", "fault.fired.F3-include-invalid-utf8", "fault.fired.F4-source-invalid-utf8", "fault.fired.F5a-output-is-directory", "fault.fired.F5b-output-dangling-symlink", "fault.fired.F6-output-dev-full", "probe.F6_enospc_surfaced", "fault.fired.F7a-temp-parent-missing", "fault.fired.F7b-temp-target-is-directory", "fault.fired.F7c-temp-target-unwritable", "fault.fired.F9-tampered-output", "fault.fired.F8-fsize-limit", "fault.F8_limit_not_reached", "c04.cli_runs", "sys.cases.errno", "sys.errno_runs_succeeded_and_checked", "sys.errno_runs_reported_failure", "c04.ok_runs_checked_against_reference", "probe.error_with_tasks_in_flight_drop_drains"],
         "C11" => &["c11.mode.build", "c11.mode.clean", "c11.base_differs_from_cwd", "c11.absolute_input", "c11.dotdot_input", "c11.unresolvable_inputs", "c11.successful_runs"],
         "C17" => &["c17.variant.env", "c17.variant.argv", "c17.variant.status", "c17.cli_guard_checked", "c17.cli_env_checked", "c17.cwd.base", "c17.cwd.ancestor", "c17.cwd.unrelated", "c17.base.relative", "c17.depth.0", "c17.depth.3", "c17.shell.configured"],
         "C18" => &["c18.mode.build", "c18.mode.needed", "c18.mode.verify", "c18.mode.clean", "c18.threads.0", "c18.threads.16", "c18.cases_with_invalid_utf8", "c18.cases_with_nul", "c18.cases_with_huge_line"],
         "C06" => &["c06.verify_expected_ok", "c06.verify_expected_err", "fault.F9_tamper.Flip", "fault.F9_tamper.Truncate", "fault.F9_tamper.Remove", "fault.F9_tamper.Append"],
         "C07" => &["c07.exact_restoration_checked"],
-        "C08" => &["fault.F11_crash_images", "probe.crash_image_with_task_in_flight", "fault.F11_torn_files", "fault.F10_prestate.invalid_utf8", "c08.variant.build-build", "c08.variant.needed-build"],
+        "C08" => &["sys.cases.crash", "fault.sys.write.KILL", "fault.sys.openat.KILL", "fault.F11_crash_images", "probe.crash_image_with_task_in_flight", "fault.F11_torn_files", "fault.F10_prestate.invalid_utf8", "c08.variant.build-build", "c08.variant.needed-build"],
         "C09" => &["c09.files_kept_untouched", "c09.files_brought_up_to_date"],
         "C10" => &["c10.ops.clean.Ok", "c10.ops.verify.Err", "c10.ops.build.Err", "c10.ops.needed.Ok"],
         _ => &[],
     }
 }
 
-pub fn components(_prop: &str) -> serde_json::Value {
-    serde_json::json!({
-        "real": [
-            "Txtpp::run coordinator loop, DepManager, Progress, Drop (src/core/execute/mod.rs, src/core/util)",
-            "threadpool crate and its OS threads, std::sync::mpsc channel",
-            "preprocess and everything below it (directives, tag state, IO context)",
-            "std::fs against a tmpfs scratch tree",
-            "sh child processes for run directives"
-        ],
-        "simulated": [
-            "choice of which parked thread proceeds (seeded scheduler over task begin / io point / task end / coordinator poll)",
-            "the coordinator's 100 ms sleep (simulated clock)",
-            "iteration order of released dependers and of scanned directory entries (seeded permutation)"
-        ],
-        "stubbed": []
-    })
+pub fn components(prop: &str) -> serde_json::Value {
+    let mut real = vec![
+        "Txtpp::run coordinator loop, DepManager, Progress, Drop (src/core/execute/mod.rs, src/core/util)",
+        "threadpool crate and its OS threads, std::sync::mpsc channel",
+        "preprocess and everything below it (directives, tag state, IO context)",
+        "std::fs against a tmpfs scratch tree",
+        "sh child processes for run directives",
+    ];
+    let mut simulated = vec![
+        "choice of which parked thread proceeds (seeded scheduler over task begin / io point / task end / coordinator poll)",
+        "the coordinator's 100 ms sleep (simulated clock)",
+        "iteration order of released dependers and of scanned directory entries (seeded permutation)",
+        "the console: stderr on /dev/null or /dev/full with Verbosity Quiet / Normal / Verbose (seeded per case)",
+    ];
+    if prop == "C04" || prop == "C08" {
+        real.push("the txtpp binary built from src/main.rs without the verif feature, one worker thread, for the syscall-level cases (every 40th case)");
+        simulated.push("syscall-level faults in the real binary through strace(1): SIGKILL on entry to, or an errno from, the k-th openat / read / write / rename / unlink of the worker thread (every position of a recorded fault-free run, sampled above 18 per case)");
+    }
+    serde_json::json!({ "real": real, "simulated": simulated, "stubbed": [] })
 }
 
 pub fn assumptions(prop: &str) -> Vec<String> {
